@@ -956,6 +956,7 @@ fn main() {
             }
             Err(e) => ctx.inconclusive(&format!("replay file carries no history: {e}")),
         }
+        drop(fake_bin);
         ctx.finish();
     }
 
